@@ -95,6 +95,7 @@ func run(c *props.Checker, tier, repo, verif string) (code int) {
 		rep.Config = prog.Config
 		labels = append(labels, prog.Config)
 		npk, nfn = len(prog.Pkgs), len(prog.Funcs)
+		props.Normalize(prog)
 		c.Run(prog, rep)
 	}
 	extra := map[string]interface{}{
